@@ -282,10 +282,6 @@ func (s *session) SignalDisconnect(pkt *mqttp.Disconnect) error {
 	var err error
 
 	if s.version == mqttp.ProtocolV50 {
-		if pkt.ReasonCode() != mqttp.CodeRefusedBadUsernameOrPassword {
-			s.will = nil
-		}
-
 		if prop := pkt.PropertyGet(mqttp.PropertySessionExpiryInterval); prop != nil {
 			if val, ok := prop.AsInt(); ok == nil {
 				// If the Session Expiry Interval in the CONNECT packet was zero, then it is a Protocol Error to set a non-
@@ -298,6 +294,12 @@ func (s *session) SignalDisconnect(pkt *mqttp.Disconnect) error {
 					s.expireIn = &val
 				}
 			}
+		}
+
+		// only a VALID DISCONNECT (and not "disconnect with will message", 0x04) discards the Will: one
+		// that is a protocol error ends the connection abnormally
+		if err == nil && pkt.ReasonCode() != mqttp.CodeRefusedBadUsernameOrPassword {
+			s.will = nil
 		}
 	} else {
 		s.will = nil
